@@ -237,7 +237,7 @@ def run_property(prop: str, modules: List[str], tier: str, seed: int) -> int:
     if total > wall_target * NPROC:
         k = wall_target * NPROC / total
         for o in obs:
-            o.budget_s = max(30.0, round(o.budget_s * k, 1))
+            o.budget_s = max(20.0, round(o.budget_s * k, 1))
     pool = Pool(NPROC)
     # order: longest budgets first
     obs.sort(key=lambda o: -o.budget_s)
